@@ -154,7 +154,6 @@ func (br *xmpReader) readAttribute(tag *Tag) (attr Attribute, err error) {
 // readAttrValue reada an Attributes value from the Tag.
 // Needs improvement for performance
 func (br *xmpReader) readAttrValue(tag *Tag) (buf []byte, err error) {
-	d, i := 0, 2
 	s := maxTagValueSize / 2
 	for {
 		if buf, err = br.Peek(s); err != nil {
@@ -162,16 +161,30 @@ func (br *xmpReader) readAttrValue(tag *Tag) (buf []byte, err error) {
 			return
 		}
 
-		if buf[0] == '=' && (buf[1] == '"' || buf[1] == '\'') {
-			delim := buf[1]
-			if b := bytes.IndexByte(buf[i:], delim); b >= 0 {
-				i += b
+		// Eq ::= S? '=' S?, then the opening quote
+		q := 0
+		for q < len(buf) && isWhiteSpace(buf[q]) {
+			q++
+		}
+		if q < len(buf) && buf[q] == '=' {
+			q++
+			for q < len(buf) && isWhiteSpace(buf[q]) {
+				q++
+			}
+		} else {
+			q = len(buf)
+		}
+		if q < len(buf) && (buf[q] == '"' || buf[q] == '\'') {
+			delim := buf[q]
+			start := q + 1
+			if b := bytes.IndexByte(buf[start:], delim); b >= 0 {
+				i := start + b
 				if i+2 >= len(buf) && len(buf) == s {
 					// what follows the closing quote lies beyond the window: look further
 					s += maxTagValueSize
 					continue
 				}
-				d = i + 1
+				d := i + 1
 				if i+1 < len(buf) && buf[i+1] == '>' {
 					d++
 					br.a = false
@@ -183,7 +196,7 @@ func (br *xmpReader) readAttrValue(tag *Tag) (buf []byte, err error) {
 				if _, err = br.Discard(d); err != nil {
 					err = errors.Wrap(err, "Attr Value (discard)")
 				}
-				return buf[2:i], err
+				return buf[start:i], err
 			}
 		}
 		s += maxTagValueSize
